@@ -253,7 +253,8 @@ async fn run_peer(io: &mut dyn PeerIo, case: &Value) {
             chunks.remove(0);
         }
     }
-    if !send_chunks(io, chunks, 0).await {
+    // "hello_pause_ms": a slow peer - the pieces of its hello are that far apart
+    if !send_chunks(io, chunks, case["hello_pause_ms"].as_u64().unwrap_or(0)).await {
         return;
     }
     if hclose != "none" {
@@ -768,7 +769,7 @@ async fn drive_session<T: netconf::transport::Transport>(
     case: &Value,
 ) -> Value {
     let mut ev = json!({});
-    let mut session = match timeout(WATCHDOG, est).await {
+    let mut session = match timeout(WATCHDOG + Duration::from_millis(case["hello_pause_ms"].as_u64().unwrap_or(0)), est).await {
         Err(_) => {
             ev["established"] = json!("timeout");
             return ev;
@@ -994,7 +995,7 @@ fn main() {
                         let mut out = child.stdout.take().unwrap();
                         let started = std::time::Instant::now();
                         let mut buf = Vec::new();
-                        let r = timeout(Duration::from_secs(12), async {
+                        let r = timeout(Duration::from_millis(12_000 + case["hello_pause_ms"].as_u64().unwrap_or(0)), async {
                             let _ = out.read_to_end(&mut buf).await;
                             child.wait().await
                         })
